@@ -194,8 +194,46 @@ impl SubCheck for Small {
     }
 }
 
+/// zone-aware values whose wall clock lies in the headroom beyond the nominal date range
+pub struct Headroom;
+impl SubCheck for Headroom {
+    type Case = (bool, u32, u32, i32);
+    fn name(&self) -> &'static str {
+        "headroom_values"
+    }
+    fn rule(&self) -> &'static str {
+        "case = (range end, seconds from that end, nanos, whole-minute offset pushing the wall clock one day beyond the nominal date range); Display and Debug have the reference shape (year -262144 / +262143) and parse back to the same instant and offset; every case non-trivial"
+    }
+    fn strategy(&self) -> Option<BoxedStrategy<Self::Case>> {
+        Some((any::<bool>(), 0u32..3600, prop_oneof![1 => Just(0u32), 1 => 0u32..1_000_000_000], 1i32..=1439).prop_map(|(hi, s, n, m)| (hi, s % (m as u32 * 60), n, m * 60)).boxed())
+    }
+    fn check(&self, &(hi, s, n, off): &Self::Case, obs: &mut Obs) -> Result<(), String> {
+        obs.nt("headroom");
+        let u = if hi { Ndt { day: cal::max_day(), secs: 86_399 - s, frac: n } } else { Ndt { day: cal::min_day(), secs: s, frac: n } };
+        let off = if hi { off } else { -off };
+        let fo = FixedOffset::east_opt(off).ok_or("harness: offset")?;
+        let dt = fo.from_utc_datetime(&conv::ndt(u));
+        let w = shift(u, off as i64);
+        let (ds, ts) = (rfmt::date(w.day), rfmt::time(w.secs, w.frac));
+        let disp = call("Display", || dt.to_string())?;
+        ensure_eq!(disp, format!("{ds} {ts} {}", rfmt::offset(off)), "Display of a headroom value");
+        let dbg = call("Debug", || format!("{dt:?}"))?;
+        ensure_eq!(dbg, format!("{ds}T{ts}{}", rfmt::offset(off)), "Debug of a headroom value");
+        let parsed = [call("FromStr", || disp.parse::<DateTime<FixedOffset>>())?, call("FromStr", || dbg.parse::<DateTime<FixedOffset>>())?];
+        if known::active("F18") {
+            obs.excluded_known("F18");
+            return Ok(());
+        }
+        for (txt, p) in [&disp, &dbg].iter().zip(parsed) {
+            let p = p.map_err(|e| format!("{txt:?} (printed for {dt:?}) does not parse back: {e:?}"))?;
+            ensure_eq!((p.naive_utc(), p.offset().local_minus_utc()), (dt.naive_utc(), off), "{txt:?} parsed back");
+        }
+        Ok(())
+    }
+}
+
 pub fn subs() -> Vec<Box<dyn DynSub>> {
-    vec![Box::new(Date), Box::new(Time), Box::new(DateTimeText), Box::new(Small)]
+    vec![Box::new(Date), Box::new(Time), Box::new(DateTimeText), Box::new(Small), Box::new(Headroom)]
 }
 
 /// F14 probe: NaiveDateTime's Display form is rejected by its FromStr
@@ -209,6 +247,11 @@ pub fn run(ctx: &Ctx) {
     if known::active("F14") {
         ctx.known_finding("F14", "NaiveDateTime Display form (\"date time\" with a space) is rejected by its FromStr (\"2015-09-05 23:56:04\".parse::<NaiveDateTime>() = Err); the pinned test suite asserts this rejection");
     }
+    known::activate("F18", crate::props::c20::probe_f18());
+    if known::active("F18") {
+        ctx.known_finding("F18", "the Display/Debug text of a DateTime<FixedOffset> whose wall-clock date lies in the one-day headroom (\"+262143-01-01T00:59:59.999999999+01:00\" for MAX_UTC at +01:00) is rejected by its FromStr (OutOfRange)");
+    }
+    ctx.run_prop(&Headroom, ctx.n(100_000, 2_000_000));
     ctx.run_enum_opt(&Small, 3, |k| {
         let v: Vec<(u8, i32)> = match k {
             0 => (-1439..=1439).map(|m| (0u8, m)).collect(),
